@@ -480,6 +480,10 @@ Definition est_evA (A : arith) (x : ev) (e : est (T A)) : est (T A) :=
   end.
 Fixpoint est_runA (A : arith) (evs : list ev) (e : est (T A)) : est (T A) :=
   match evs with [] => e | x :: r => est_runA A r (est_evA A x e) end.
+(** [x] restarts the estimator [e]: reset_eta / reset_elapsed / reset, or a record whose position is
+    below the baseline (a recorded backwards seek) *)
+Definition is_restart {F} (x : ev) (e : est F) : Prop :=
+  match x with ERst _ _ => True | ERec p _ => (p < prev_steps e)%N end.
 (** positions and instants are u64 in the Rust code *)
 Definition ev_u64 (x : ev) : Prop := (ev_time x < U64)%N /\ (ev_pos x < U64)%N.
 Definition op_u64 (o : eop) : Prop :=
